@@ -582,7 +582,7 @@ rt_gen_wellformed(vh_rng *r, struct rt_desc *d, int allow_fail)
  * directly behind, in front of and between populated ones, a long densely packed area next to a register-less
  * one, everything adjacent. Registers are filled from the generator (types by size, constraints, defaults).
  * Returns 0 when k is past the list. */
-#define RT_NCURATED 12
+#define RT_NCURATED 16
 static int
 rt_gen_curated(vh_rng *r, unsigned k, struct rt_desc *d, int allow_fail)
 {
@@ -590,14 +590,16 @@ rt_gen_curated(vh_rng *r, unsigned k, struct rt_desc *d, int allow_fail)
     static const struct {
         uint32_t base;
         uint32_t size[3];
-        unsigned bare, custom, be;
+        unsigned bare, custom, be, nowrite;
     } L[RT_NCURATED / 2] = {
         { 0, { 4, 4, 0 }, 2u, 0u, 0 },         /* populated, bare */
         { 0x100, { 3, 5, 0 }, 1u, 0u, 1 },     /* bare, populated */
         { 5, { 4, 2, 4 }, 2u, 0u, 0 },         /* populated, bare, populated */
         { 0xfff8, { 6, 3, 0 }, 2u, 3u, 1 },    /* callback-backed, across the 16-bit boundary */
         { 0, { 40, 4, 0 }, 2u, 0u, 0 },        /* long dense area, bare */
-        { 0xffffff00u, { 5, 30, 3 }, 1u, 2u, 0 } /* bare, long dense callback area, populated: top of the address space */
+        { 0xffffff00u, { 5, 30, 3 }, 1u, 2u, 0 }, /* bare, long dense callback area, populated: top of the address space */
+        { 0x100, { 6, 6, 0 }, 0u, 2u, 0, 2u },    /* memory area, callback area without write callback (sanitise cannot repair it) */
+        { 0x7ffe, { 5, 4, 5 }, 0u, 5u, 1, 4u }    /* callback, memory, callback-without-write; across the 15-bit boundary */
     };
     if (k >= RT_NCURATED)
         return 0;
@@ -611,7 +613,7 @@ rt_gen_curated(vh_rng *r, unsigned k, struct rt_desc *d, int allow_fail)
         a->size = L[li].size[i];
         a->readable = a->writeable = 1;
         a->custom = (int)((L[li].custom >> i) & 1u);
-        a->has_write = 1;
+        a->has_write = !((L[li].nowrite >> i) & 1u);
         cursor += a->size;
     }
     for (int i = 0; i < d->nareas && d->nregs < RT_MAXREGS - 2; i++) {
@@ -637,7 +639,15 @@ rt_gen_curated(vh_rng *r, unsigned k, struct rt_desc *d, int allow_fail)
             g->type = rt_type_for_size(r, words);
             g->addr = p;
             rt_gen_constraint(r, g, allow_fail && (k & 1));
-            if (d->nregs % 3 != 0) {
+            if ((L[li].nowrite >> i) & 1u) {
+                /* constrained, so that out-of-band damage is something sanitise has to act on */
+                if (g->ck == REGV_TYPE_TRIVIAL || g->ck == REGV_TYPE_FAIL) {
+                    g->ck = REGV_TYPE_RANGE;
+                    g->def = g->lo;
+                }
+            } else if (allow_fail && L[li].nowrite && d->nregs == 2) {
+                g->ck = REGV_TYPE_FAIL; /* a write-once register in front of the area that cannot be repaired */
+            } else if (d->nregs % 3 != 0) {
                 g->ck = REGV_TYPE_TRIVIAL;
                 g->def = rt_pick_value(r, g->type);
                 if (!rt_bits_valid(g->type, rt_bits(g->type, g->def)))
